@@ -9,27 +9,27 @@ CLAIMS = {
  'C01': dict(text='Bounded symbolic execution of the real peg-generated expression parser (plc_parser::expression, __infix_parse and its closures, from MIR) on token sequences whose operator '
                   'token types are symbolic; each path yields the complete ExprKind tree, compared with an Annex B.3.1 precedence-climbing reference; mismatches are replayed through parse_program.',
              tech='SMT-guided bounded symbolic execution of rustc MIR of the generated parser (z3)', sect='§4 C01',
-             note='Kernel K1 (+K2 when listed in evidence). Outside: all other productions, whole-grammar faithfulness, literal spelling (C09).'),
+             note='Kernels K1 (expressions), K4 (variable block class x qualifier, symbolic block/qualifier token types through parse_library), K5 (statement_list over token sequences with symbolic token types against an IEC B.3.2 DFA reference; flatten_statements unit step). Outside: all other productions, whole-grammar faithfulness, literal spelling (C09).'),
  'C02': dict(text='Bounded symbolic execution of rule visitors from MIR on program templates resolved by the real resolve_types, with identifiers symbolic over a small alphabet, compared with reference predicates written from the rule documentation; '
                   'stages::semantic executed with every rule replaced by a nondeterministic stub (registration of every rule module, Err iff any rule fails, diagnostics concatenated). Mismatches are replayed through analyze().',
              tech='SMT-guided bounded symbolic execution of rustc MIR (z3) with symbolic-key hash-map model', sect='§4 C02',
-             note='Kernels K1 (4 rules) and K3. Outside: the remaining rules, rule interaction on whole programs, derive(Recurse) traversal completeness (K2) unless listed in evidence.'),
+             note='Kernels K1 (5 rules incl. function-block invocation scope) and K3. Outside: the remaining rules, rule interaction on whole programs, derive(Recurse) traversal completeness (K2) unless listed in evidence.'),
  'C03': dict(text='Symbolic execution of FileBackedProject::semantic (parse/analyze as nondeterministic stubs, hash order nondeterministic) and of xform_toposort_declarations::apply on declaration pairs with symbolic names; '
                   'the solver decides that no parse error, analysis error or declaration is lost. Models are replayed through Project::semantic / ironplcc check / analyze.',
              tech='SMT-guided bounded symbolic execution of rustc MIR (z3)', sect='§4 C03',
-             note='Kernels K1, K3. Outside: per-rule behaviour in company of other declarations (argued from C02), sets larger than the bounds.'),
+             note='Kernels K1, K3, K4 (same-name declarations diagnosed by resolve_types). Outside: per-rule behaviour in company of other declarations (argued from C02), sets larger than the bounds.'),
  'C06': dict(text='Symbolic execution of project.semantic under every hash iteration order, of toposort apply under every permutation of the declarations and every toposort tie-break, and of stages::resolve_types under file partitions, '
                   'with reference edges symbolic; verdicts must equal the reference graph verdict whatever the order/partition.',
              tech='SMT-guided bounded symbolic execution of rustc MIR (z3), nondeterministic contract models for hash order and toposort ties', sect='§4 C06',
-             note='Kernels K1-K3. Outside: order-independence of reported code/location through all eleven rules; CLI argument order (K4) unless listed.'),
+             note='Kernels K1-K3, K4 (rule verdict under exchange of independent POUs, identifiers symbolic). Outside: order-independence of reported code/location through the remaining rules; CLI argument order.'),
  'C07': dict(text='Symbolic execution of the real graph-building visitor and DeclarationsGraph::sorted_ids over every directed graph on K nodes (one symbolic bit per edge) in three realisations; verdict compared with the transitive closure of the reference graph; mismatches replayed through analyze().',
              tech='SMT-guided bounded symbolic execution of rustc MIR (z3), petgraph by contract', sect='§4 C07',
              note='Kernel K1. Outside: graphs beyond the node bound, mixed realisations, alias-chain walk (K2) unless listed.'),
  'C11': dict(text='Symbolic execution of LspServer::handle_notification, LspProject and FileBackedProject (real HashMap-backed project) over every notification history up to the bound; parse and analysis are uninterpreted functions of the texts, '
                   'so the solver decides that the published diagnostics are a function of the current contents only, carry the notification uri/version, and that the project holds exactly the current texts. Replayed through the real LSP binary against a fresh server.',
              tech='SMT-guided bounded symbolic execution of rustc MIR (z3) with uninterpreted parse/analyze', sect='§4 C11',
-             note='Kernel K3 (covers K1/K2 obligations on the explored histories). Outside: JSON framing, URI conversion, equality with `check` beyond sharing FileBackedProject::semantic.'),
- 'C12': dict(text='One-step symbolic execution of the server message loop, request and notification handlers for an arbitrary message (method symbolic, params deserialise or not, 0..2 content changes) and of diagnostic conversion for two-document diagnostics; '
+             note='Kernel K3 (covers K1/K2 obligations on the explored histories; the reference is a fresh server told only the current contents, run on the same path with the same uninterpreted parse/analysis outcomes). Outside: JSON framing, URI conversion, equality with `check` beyond sharing FileBackedProject::semantic.'),
+ 'C12': dict(text='One-step symbolic execution of the server message loop, request and notification handlers for an arbitrary message (method symbolic, params deserialise or not, document URI scheme file or other, 0..2 content changes) and of diagnostic conversion for two-document diagnostics; '
                   'solver decides exactly-one-response, no response to notifications, no panic. Replayed through the real LSP binary.',
              tech='SMT-guided bounded symbolic execution of rustc MIR (z3); inductive one-step kernels', sect='§4 C12',
              note='Kernels K1, K2, K2b, K4. Outside: liveness of I/O threads, process exit status after exit (lsp-server), frame syntax.'),
@@ -48,15 +48,15 @@ CLAIMS = {
  'C10': dict(text='Symbolic round trip of leaf literals: the literal node of a parsed template is made symbolic, the real renderer is executed symbolically (format!/to_string by contract), the rendered text is lexed by the lexer lifted on that text, '
                   'parsed by the real peg parser and compared with the derived PartialEq of Library; the solver decides value preservation and re-parsability for all values in the bound. write_ws lexeme separation as an inductive step. Replayed through write_to_string/parse_program.',
              tech='SMT-guided bounded symbolic execution of rustc MIR (z3): renderer -> lifted lexer -> generated parser', sect='§4 C10',
-             note='Kernels K1 (duration, integer, date, time of day), K2. Outside: structural round trip of declarations/statements/configurations/SFC; reals and anything rendered through floating point (not encoded).'),
+             note='Kernels K1 (duration, integer, date, time of day), K2, K3 (23 source templates with symbolic shape selectors: every optional segment / alternative combination run through parse -> render -> parse -> eq on the MIR; concrete f64 values evaluated natively). Outside: constructs and combinations not in the templates; symbolic reals (floating point is not encoded).'),
  'C04': dict(text='Kani/CBMC proof harnesses over the compiled ironplc-dsl numeric constructors (all FixedPoint values, real time crate) decide panic freedom; '
                   'failing checks come with concrete playback values that are replayed through the public API and through `check` of a program containing the literal.',
              tech='bounded model checking with Kani/CBMC (bit-precise, compiled code)', sect='§4 C04', kani=True,
-             note='Kernel K2 (plus mirsym panic-site kernels when listed in evidence). Outside: stack depth, time budgets, panic sites not enumerated in evidence.'),
+             note='Kernels K2 (Kani), K3 (FixedPoint::parse on symbolic digit strings), K4 (AddressAssignment::try_from on symbolic direct-address texts, regex crate by contract with the patterns read from the MIR). Outside: stack depth, time budgets, panic sites not enumerated in evidence.'),
  'C09': dict(text='Kani/CBMC harnesses decide integer and duration value conversions over all 128-bit / FixedPoint values; mirsym kernels (when listed in evidence) execute the literal grammar actions on symbolic digit strings; '
                   'models are replayed through parse_program.',
              tech='bounded model checking with Kani/CBMC; SMT-based symbolic execution of MIR (z3)', sect='§4 C09', kani=True,
-             note='Kernels as listed in evidence. Outside: correct rounding of reals, $-escapes in strings.'),
+             note='Kernels K3a (Kani), K2 (based/decimal integer texts incl. the u128 limit), K3b (fixed point texts with underscores), K4 (DATE / TOD grammar actions on symbolic digits). Outside: correct rounding of reals, $-escapes in strings, duration unit arithmetic beyond K3a.'),
  'C05': dict(text='Bounded symbolic execution of the real lexer::tokenize over the logos state machine lifted from MIR (all valid UTF-8 sources up to N bytes), '
                   'of preprocessor::remove_oscat_comment and of lsp_project::map_label; solver decides token tiling/text/line/col, offset preservation and span->position mapping for '
                   'every input in the bound; models are replayed through tokenize_program / the LSP binary.',
@@ -65,7 +65,7 @@ CLAIMS = {
  'C08': dict(text='Solver queries over the lexer lifted from MIR: every case pattern of every reserved word, every string of the reference trivia language up to n bytes; '
                   'bounded symbolic execution of insert_keyword_statement_terminators over symbolic token types. Violations are replayed through tokenize_program.',
              tech='SMT queries over lexer transition relation lifted from MIR; bounded symbolic execution of MIR (z3)', sect='§4 C08',
-             note='Kernels K1a,K1b,K2. Outside: equality of whole parsed libraries under re-spelling (grammar), textual keyword comparisons inside grammar actions unless listed.'),
+             note='Kernels K1a,K1b,K2,K4 (Eq/Hash consistency of Id and Type under case folding). Outside: equality of whole parsed libraries under re-spelling (grammar), textual keyword comparisons inside grammar actions unless listed.'),
 }
 NOT_YET = 'check not built yet (work in progress)'
 def main():
